@@ -43,6 +43,9 @@ EXTRA_ROOTS = [
     "3r2k1/1P3ppp/8/8/8/8/5PPP/3R2K1 w - - 0 1",
     "4k3/8/8/8/8/5n2/4P3/3RK2r w - - 0 1",
     "6k1/5ppp/8/8/2b5/8/3pKPPP/2R5 b - - 0 1",
+    "4k3/p1p1p1p1/8/1P1P1P1P/p1p1p1p1/8/1P1P1P1P/4K3 w - - 0 1",
+    "4k3/p1p1p1p1/8/1P1P1P1P/p1p1p1p1/8/1P1P1P1P/4K3 b - - 0 1",
+    "r3k2r/p1p1p1p1/8/1P1P1P1P/p1p1p1p1/8/1P1P1P1P/R3K2R w KQkq - 0 1",
 ]
 
 
@@ -78,21 +81,31 @@ def main():
     hb = vlib.build_harness("dev")
 
     # ---- real picker runs (direction A) ---------------------------------------------------------------
+    # walk A: the general roots plus the special ones, long walks; walk B: only the special roots (promotions, en
+    # passant, checks, castling), short walks that stay near them
     roots = os.path.join(chk.outdir, "roots.txt")
     with open(roots, "w") as f:
         f.write(open(os.path.join(vlib.VERIF, "data", "roots.txt")).read().rstrip("\n") + "\n")
         f.write("\n".join(EXTRA_ROOTS) + "\n")
-    nwalk = 1 if q else 16
+    roots_b = os.path.join(chk.outdir, "roots_special.txt")
+    with open(roots_b, "w") as f:
+        f.write("\n".join(EXTRA_ROOTS) + "\n")
+    na, nb = (1, 1) if q else (12, 4)
+    nwalk = na + nb
     npos = 300 if q else 20000
     contents, loud = (6, 1) if q else (10, 2)
     per_file = 150 if q else 640
-    base = os.path.join(chk.outdir, "walk")
-    vlib.harness(hb, ["walk", "--seed", chk.seed, "--events", 2500 if q else 9000, "--files", nwalk, "--out", base,
+    base, base_b = os.path.join(chk.outdir, "walk"), os.path.join(chk.outdir, "walkb")
+    vlib.harness(hb, ["walk", "--seed", chk.seed, "--events", 2500 if q else 9000, "--files", na, "--out", base,
                       "--roots", roots])
-    wfiles = [base] if nwalk == 1 else ["%s.%d" % (base, i) for i in range(nwalk)]
+    vlib.harness(hb, ["walk", "--seed", chk.seed + 1, "--events", 1500 if q else 9000, "--files", nb, "--out", base_b,
+                      "--roots", roots_b, "--max-depth", 8])
+    wfiles = ([base] if na == 1 else ["%s.%d" % (base, i) for i in range(na)]) + \
+             ([base_b] if nb == 1 else ["%s.%d" % (base_b, i) for i in range(nb)])
+    quotas = [(npos * 3 // 4) // na] * na + [(npos - (npos * 3 // 4) // na * na) // nb] * nb
 
     def pick(i):
-        quota = -(-npos // nwalk)
+        quota = quotas[i]
         nf = max(1, -(-quota // per_file))
         ob = os.path.join(chk.outdir, "picker_%d" % i)
         o = json.loads(vlib.harness(hb, ["picker", wfiles[i], ob, "--seed", chk.seed * 31 + i, "--contents", contents,
@@ -114,7 +127,10 @@ def main():
             for line in f:
                 m = re.search(r'"fen":\s*"([^"]*)"', line)
                 fens.add(m.group(1).rsplit(" ", 2)[0])
-    if hp["positions"] < (200 if q else 15000) or hp["nontrivial"] == 0 or tally.get("loud", 0) == 0:
+    kinds = ["pos_en_passant", "pos_queen_promotion_push", "pos_capture_promotion", "pos_underpromotion_push",
+             "pos_castling", "pos_in_check", "pos_no_capture_list_entry", "pos_more_than_4_capture_list_entries"]
+    if hp["positions"] < (200 if q else 15000) or hp["nontrivial"] == 0 or tally.get("loud", 0) == 0 or \
+            (not q and any(tally.get(k, 0) == 0 for k in kinds)):
         raise ToolError("vacuous picker run: %s %s" % (hp, tally))
 
     # ---- all TLC jobs, 16 at a time: model checking shards first (they are the long ones) --------------
